@@ -579,6 +579,11 @@ func (c *Client) updateLightClientIfNeededTo(ctx context.Context, height *int64)
 	)
 	if height == nil {
 		l, err = c.lc.Update(ctx, time.Now())
+		if err == nil && l == nil {
+			// The primary has nothing newer than the latest trusted light block
+			// (Update returns nil, nil): the latest is the one we already trust.
+			l, err = c.lc.TrustedLightBlock(0)
+		}
 	} else {
 		l, err = c.lc.VerifyLightBlockAtHeight(ctx, *height, time.Now())
 	}
